@@ -303,6 +303,12 @@ def check_termination(out, facts):
     out.floor('R03.4', 'loops on decoding paths [%s]' % cfg, n, 6)
 
 
+# panic-capable sites per feature configuration: 78 / 74 / 74 / 89 / 85 were counted on the pinned tree; the floors sit
+# below them so that removing a few sites (checked -> saturating arithmetic) is not an alarm, while an analysis that
+# lost its reachability roots fails closed
+PANIC_SITE_FLOOR = {'A': 60, 'B': 55, 'C': 55, 'D': 70, 'E': 65}
+
+
 def run(cx, out):
     out.rule('R03.1', 'byte tag dispatch accepts exactly the encoder\'s tag set; everything else rejects')
     out.rule('R03.2', 'validation guards: NonZero::new, String::from_utf8, nanos < 10^9, bits <= 2^29-1 (semantic evaluation at boundary values)')
@@ -318,12 +324,9 @@ def run(cx, out):
         check_guards(out, facts, S, D)
         check_errprop(out, facts)
         check_termination(out, facts)
-        try:
-            from . import mirpanic
-        except ImportError:
-            mirpanic = None
-        if mirpanic:
-            mirpanic.check_decode_panics(out, facts)
+        from . import panics
+        from .. import facts as _fm
+        panics.check_panics(out, facts, _fm.repo_root(), floor=PANIC_SITE_FLOOR.get(cfg, 70))
         # compact canonicality / width guards and reachability of arithmetic panics in the compact decoders (C04 R04.2)
         from . import c04
         c04.check_decoders(out, facts, None)
@@ -336,5 +339,24 @@ def run(cx, out):
     out.rule('R05.2', 'derived decoders accept exactly the declared index bytes and read the declared representation (derive corpus of C05)')
     out.rule('R05.5', 'derived in-place decode_into reads the same representation as decode')
     out.absorb(_sub, {'R05.2', 'R05.5'})
+    # panic sites in the code the derive macros generate (the same corpus), and the rule families R03.3 delegates to
+    from . import panics as _panics, c09 as _c09, c11 as _c11
+    from .. import facts as _fm
+    try:
+        fx, _defs = _c05.corpus_facts(cx)
+        libD = cx.facts('D')
+        _panics.check_panics(out, fx, _fm.repo_root(), label='derive corpus', only_fns=lambda f: f['path'] not in libD.by_path)
+    except _fm.BuildError as e:
+        out.fail('R03.3', 'derive corpus', 'corpus does not compile: %s' % str(e)[:300], '-')
+    out.rule('R09.1', 'sized allocation requests on decoding paths are sanitised (rule of C09; R03.3 delegates capacity-overflow panics to it)')
+    out.rule('R11.1', 'descend_ref / ascend_ref are balanced on every path (rule of C11; the audited depth counter arithmetic relies on it)')
+    for cfg in lib_cfgs(cx):
+        facts = cx.facts(cfg)
+        _sub9 = _Out('C09')
+        _c09.check_sinks(_sub9, facts)
+        out.absorb(_sub9, {'R09.1'})
+        _sub11 = _Out('C11')
+        _c11.check_all(_sub11, facts, cfg, floors=False)
+        out.absorb(_sub11, {'R11.1'})
     from . import positive
     positive.check(cx, out, 'C03')
